@@ -10,6 +10,7 @@ touching /repo.
 import ast
 import os
 import re
+from . import normalize
 
 
 class AnalysisError(Exception):
@@ -160,6 +161,7 @@ class Module(object):
             self.tree = ast.parse(text, filename=rel)
         except SyntaxError as e:
             raise AnalysisError('cannot parse %s: %s' % (rel, e))
+        normalize.fold_return_temps(self.tree)        # `t = e; return t` is read as `return e` by every rule (sa/normalize.py)
         self.classes = {}
         self.functions = {}
         self.consts = {}
